@@ -235,7 +235,11 @@ class C08(Prop):
                 (["--stdin-quit"], {"k": "eof"}, [], [], True, True, "exit_after=20000,on_term=exit:0"),
                 (["--map-signal=TERM:HUP"], {"k": "signal", "sig": "Terminate"}, [15], [15], False, False, "exit_after=20000,on_hup=ignore"),
                 (["--map-signal=INT:USR1"], {"k": "signal", "sig": "Interrupt"}, [2], [2], False, False, "exit_after=20000,on_usr1=ignore"),
-                ([], {"k": "signal", "sig": "Hangup"}, [1], [], False, False, "exit_after=20000,on_hup=ignore")]):
+                ([], {"k": "signal", "sig": "Hangup"}, [1], [], False, False, "exit_after=20000,on_hup=ignore"),
+                # only one of the two quit signals is mapped: the other one still quits
+                (["--map-signal=INT:USR1"], {"k": "signal", "sig": "Terminate"}, [15], [2], False, False, "exit_after=20000,on_term=exit:0,on_usr1=ignore"),
+                (["--map-signal=TERM:USR1"], {"k": "signal", "sig": "Interrupt"}, [2], [15], False, False, "exit_after=20000,on_term=exit:0,on_usr1=ignore"),
+                (["--map-signal=INT:INT"], {"k": "signal", "sig": "Terminate"}, [15], [2], False, False, "exit_after=20000,on_term=exit:0,on_int=ignore")]):
             cli.append({"id": k, "args": args, "child_script": script, "events": [dict(ev, at_ms=300)], "wait_ms": 1500,
                         "m": (sigs, mapped, sq, eof, args)})
         try:
